@@ -286,6 +286,9 @@ func (c *Ctx) c07Direct(g *Gen, corr *[]corrCase) {
 					if len(retained) >= 3 {
 						retained = retained[1:]
 					}
+					if idx%4 == 1 {
+						libNoise(g)
+					}
 					sa := kdBlankSA(st, j%2)
 					a, b := g.kdInputs(j), g.kdInputs(3+j)
 					seq := []kdInputs{a, b}
@@ -963,6 +966,9 @@ func (c *Ctx) c08History(g *Gen, corr *[]corrCase) {
 		k := g.saKeys(st)
 		sa := newSA(k)
 		for d := 1; d <= n; d++ {
+			if d%4 == 0 {
+				libNoise(g)
+			}
 			// other uses of the SA between derivations
 			for o := g.intn(3); o > 0; o-- {
 				switch g.intn(4) {
@@ -1477,7 +1483,7 @@ func kdAkaGo(ik, ck, id []byte) callRes {
 func propC16(c *Ctx) {
 	g := NewGen(c.seed)
 	s := c.suite("aka-prf-vs-rfc", "oracle",
-		"eap.EapAkaPrimePRF: IK', CK' of 1..64 octets each (equal and unequal lengths, 16/16 most often; all-zero, all-ff, random), identity = Go string made from 0..255 arbitrary octets (incl. NUL, >= 0x80, invalid UTF-8, empty); K_encr, K_aut, K_re, MSK, EMSK = octets [0,16) [16,48) [48,80) [80,144) [144,208) of the stdlib HMAC-SHA-256 recursion PRF'(IK'|CK', \"EAP-AKA'\"|identity); empty (nil and zero-length) IK' or CK' => error and no key material; inputs unchanged; every 4th call uses the arguments of the preceding call with an argument boundary moved by 1..3 octets (IK'|CK', CK'|identity), the same arguments again, or one octet changed; non-trivial = both keys non-empty; distinct by (IK', CK', identity)")
+		"eap.EapAkaPrimePRF: IK', CK' of 1..64 octets each (equal and unequal lengths, 16/16 most often; all-zero, all-ff, random), identity = Go string made from 0..255 arbitrary octets (incl. NUL, >= 0x80, invalid UTF-8, empty); K_encr, K_aut, K_re, MSK, EMSK = octets [0,16) [16,48) [48,80) [80,144) [144,208) of the stdlib HMAC-SHA-256 recursion PRF'(IK'|CK', \"EAP-AKA'\"|identity); empty (nil and zero-length) IK' or CK' => error and no key material; inputs unchanged; before every third call some unrelated operation of the library is performed (a message encoded, an EAP-AKA' packet marshalled and MACed, a datagram decoded, an SA keyed, a message protected ...); every 4th call uses the arguments of the preceding call with an argument boundary moved by 1..3 octets (IK'|CK', CK'|identity), the same arguments again, or one octet changed; non-trivial = both keys non-empty; distinct by (IK', CK', identity)")
 	var corr []corrCase
 	n := c.n(600, 60000)
 	var prevIk, prevCk, prevId []byte
@@ -1578,6 +1584,9 @@ func propC16(c *Ctx) {
 			default:
 				ik, ck = []byte{}, []byte{}
 			}
+		}
+		if j%3 == 1 {
+			libNoise(g) // some other use of the library in between
 		}
 		line := fmt.Sprintf("akaprf %s %s %s", hx(ik), hx(ck), hx(id))
 		setCase(line)
